@@ -14,6 +14,7 @@ import Manticore.Lemmas.SmbMirror
 import Manticore.Lemmas.SmbLoopsMirror
 import Manticore.Lemmas.SmbStd
 import Manticore.Lemmas.SmbLocality
+import Manticore.Props.C04.Direct
 namespace Manticore.C04
 open Manticore Manticore.SmbIR Manticore.Gen.SmbCommands
 
@@ -47,7 +48,7 @@ theorem andx_consumed :
 
 /-- the recorded round-trip findings, decided on the extracted programs: exactly these commands and
     reasons (KNOWN_FINDINGS.txt lists the same keys): the two 43-byte entry windows, which are MS-CIFS's size.  The
-    other thirteen entries this list once had were repaired in the repository (fixes/C04-*.diff): a field never
+    other fourteen entries this list once had were repaired in the repository (fixes/C04-*.diff): a field never
     marshalled or never unmarshalled, nested strings decoded from the start of the block, an optional field under a
     word count never reached or not reset.  A new structural defect in another command changes this list. -/
 theorem known_roundtrip_findings :
@@ -194,7 +195,7 @@ theorem smb_reencode (c : Cmd) (hmem : c ∈ commands) (hm : Mirror c = true) (e
 
 /-! ## the loop fragment: list fields marshalled by a `range` loop and read back by a counted loop -/
 
-/-- **Which commands the loop fragment adds**: exactly these thirteen satisfy `MirrorLoops` without satisfying
+/-- **Which commands the loop fragment adds**: exactly these fourteen satisfy `MirrorLoops` without satisfying
     `Mirror`.  LockingAndxRequest: two lists of LOCKING_ANDX_RANGE64 written by `range` loops and read back by
     counted loops running to `NumberOfRequestedUnlocks` / `NumberOfRequestedLocks` through 20-byte windows;
     OpenAndxRequest, OpenAndxResponse, LockAndReadResponse, QueryInformationResponse: the fixed array `Reserved [n]USHORT`
@@ -209,27 +210,33 @@ theorem smb_reencode (c : Cmd) (hmem : c ∈ commands) (hm : Mirror c = true) (e
     its `fixedSize`);
     SessionSetupAndxRequest, SessionSetupAndxResponse: `Pad` read with a length computed by arithmetic
     (`UnicodePasswordLen` rounded up to even; one byte when `len(P)+3` is odd);
-    WriteMpxRequest (and WriteAndxRequest): the last buffer read not followed by an advance of `offset`. -/
+    WriteMpxRequest (and WriteAndxRequest): the last buffer read not followed by an advance of `offset`;
+    RenameRequest: `c.SearchAttributes.Unmarshal(P[offset:offset+2]); offset += 2` — neither the error nor the count of
+    the nested decoder is looked at, `offset` moves by the window: admitted through a window of the type's `fixedSize`
+    only, where the decoder cannot fail on a value of the domain and would report that very count
+    (`rename_request_unchecked_decode_total`: on this two-byte window it cannot fail on any bytes at all). -/
 theorem loop_mirror_commands :
     (commands.filter (fun c => MirrorLoops c && !Mirror c)).map (·.name) =
       ["LockAndReadResponse", "LockingAndxRequest", "OpenAndxRequest", "OpenAndxResponse",
-       "QueryInformationResponse", "ReadRawRequest", "SessionSetupAndxRequest",
+       "QueryInformationResponse", "ReadRawRequest", "RenameRequest", "SessionSetupAndxRequest",
        "SessionSetupAndxResponse", "TransactionRequest", "WriteAndCloseRequest",
        "WriteAndxRequest", "WriteMpxRequest", "WriteRawRequest"] := by decide +kernel
 
 /-- `MirrorLoops` extends `Mirror`: each of the 96 `Mirror` commands satisfies it -/
 theorem mirror_loops_extends : commands.all (fun c => !Mirror c || MirrorLoops c) = true := by decide +kernel
 
-/-- **What is still outside**: exactly these 6 commands satisfy neither predicate; for them the round trip is
-    decided by the correspondence runs only.  Two carry the recorded structural finding (`known_roundtrip_findings`:
-    a 43-byte window for 53-byte entries); NegotiateRequest decodes `Dialects`, which reads to the end of its input
-    and is not among the lawful nested types; NegotiateResponse writes and reads two null-terminated strings
-    (literal terminator bytes, `rawDataContent` re-sliced); RenameRequest reads its attributes without checking the
-    error or using the count; WriteRequest puts its buffer ahead of the parameter block. -/
+/-- **What is still outside the fragment predicates**: exactly these 5 commands satisfy neither.  NegotiateRequest
+    (`Dialects` reads to the end of its input and is not among the lawful nested types) and WriteRequest (`Data` decoded
+    with error and count dropped behind a guard the type does not size, `offset` then moved by `c.Data.Length`; its
+    Marshal was repaired, fixes/C04-writerequest-data-block.diff) each have their own theorem with the statement of
+    `mirror_loops_roundtrip`: `negotiate_request_roundtrip`, `write_request_roundtrip` (Props/C04/Direct.lean).  Two
+    carry the recorded structural finding (`known_roundtrip_findings`: a 43-byte window for 53-byte entries);
+    NegotiateResponse writes and reads two null-terminated strings (literal terminator bytes, `rawDataContent`
+    re-sliced) and alone rests on the correspondence runs without a finding. -/
 theorem non_mirror_loops_commands :
     (commands.filter (fun c => !MirrorLoops c)).map (·.name) =
       ["FindResponse", "FindUniqueResponse", "NegotiateRequest", "NegotiateResponse",
-       "RenameRequest", "WriteRequest"] := by decide +kernel
+       "WriteRequest"] := by decide +kernel
 
 /-- **C04, generic round trip over the loop fragment.**  As `mirror_roundtrip`, for every command whose
     regenerated programs satisfy `MirrorLoops`: the only statements outside the straight-line fragment are
@@ -282,7 +289,7 @@ private theorem loops_side (c : Cmd) (hmem : c ∈ commands) (hm : MirrorLoops c
     beq_iff_eq] at h
   exact ⟨h.1.1, h.1.2, h.2⟩
 
-/-- **C04 for the regenerated commands, loop fragment.**  Each of the 109 `MirrorLoops` command structures of this
+/-- **C04 for the regenerated commands, loop fragment.**  Each of the 110 `MirrorLoops` command structures of this
     tree round-trips every declared field and its AndX block, for all internally consistent field values and all
     initial states of the receiver that fit (`receiverFits`), with the C06 models as nested codecs. -/
 theorem smb_loops_roundtrip (c : Cmd) (hmem : c ∈ commands) (hm : MirrorLoops c = true) (env0 env : Env)
@@ -313,10 +320,10 @@ theorem slot_locality (C : Codecs) (c : Cmd) (f : String) (lo hi : Nat) (h : slo
     a.length = b.length ∧ ∀ i, (i < lo ∨ hi ≤ i) → a[i]? = b[i]? :=
   slot_locality_core C c f lo hi h env v a b ha hb
 
-/-- the theorem applies to 224 (command, field) pairs of this tree (206 before the layout was read through `layoutZ`:
+/-- the theorem applies to 228 (command, field) pairs of this tree (224 before WriteRequest's marshal program became straight-line, fixes/C04-writerequest-data-block.diff; 206 before the layout was read through `layoutZ`:
     the fixed-width fields in front of a `range` loop over an integer array, and NegotiateResponse's, are among them) -/
 theorem slot_ranges_defined :
-    (commands.flatMap (fun c => (c.fields.map (·.1)).filterMap (fun f => slotRange c f))).length = 224 := by
+    (commands.flatMap (fun c => (c.fields.map (·.1)).filterMap (fun f => slotRange c f))).length = 228 := by
   decide +kernel
 
 /-! ### non-vacuity: a concrete command and concrete field values satisfy every hypothesis -/
@@ -533,5 +540,38 @@ example : consistent Manticore.SmbCodecs.std cmd_SessionSetupAndxResponse sessio
   simp [intsFit, relationsHold, cmd_SessionSetupAndxResponse, sessionRespEnv, prologueEnv, Env.get, Env.set, wordCountOf,
     andxWords, andxField, defaultAndX, evalEnv]
   exact ⟨hax, htup _ (by simp), htup _ (by simp), htup _ (by simp)⟩
+
+/-! ### RenameRequest: a nested read whose error and count are dropped -/
+
+/-- **the dropped error of RENAME is unreachable**: `RenameRequest.Unmarshal` calls
+    `c.SearchAttributes.Unmarshal(rawParametersContent[offset:offset+2])` without looking at the error or the count
+    and then moves `offset` by 2.  On a two-byte window `SMB_FILE_ATTRIBUTES.Unmarshal` succeeds on any bytes and
+    reports 2: nothing is hidden by the missing check, it is not a defect of the round trip. -/
+theorem rename_request_unchecked_decode_total (w : Bytes) (hw : w.length = 2) :
+    ∃ v, Manticore.SmbCodecs.std.dec "SMB_FILE_ATTRIBUTES" w = .ok (v, 2) := by
+  match w, hw with
+  | [a, b], _ => exact ⟨_, rfl⟩
+
+/-- `RenameRequest{SearchAttributes: 0x0016, OldFileName: "A", NewFileName: "BC"}` (Marshal sets both formats to 4) -/
+def renameEnv : Env :=
+  [("SearchAttributes", .t ([0x16], [])), ("OldFileName", .t ([4, 1], [[0x41]])), ("NewFileName", .t ([4, 2], [[0x42, 0x43]]))]
+
+example : cmd_RenameRequest ∈ commands := by simp [commands, chunk0, chunk1, chunk2, chunk3, chunk4]
+example : MirrorLoops cmd_RenameRequest = true ∧ Mirror cmd_RenameRequest = false := by decide +kernel
+example : receiverFits cmd_RenameRequest [] renameEnv = true := by decide +kernel
+example : (match encodeCmd Manticore.SmbCodecs.std cmd_RenameRequest renameEnv with
+    | .ok bs => (match decodeCmd Manticore.SmbCodecs.std cmd_RenameRequest [("SearchAttributes", .t ([0xFFFF], []))] bs with
+      | .ok d => (cmd_RenameRequest.fields.map (·.1)).map d.get == (cmd_RenameRequest.fields.map (·.1)).map renameEnv.get
+      | _ => false)
+    | _ => false) = true := by decide +kernel
+example : consistent Manticore.SmbCodecs.std cmd_RenameRequest renameEnv = true := by
+  have hrun : runM Manticore.SmbCodecs.std cmd_RenameRequest renameEnv =
+      .ok { P := [0, 0x16], D := [4, 0x41, 0, 4, 0x42, 0x43, 0], head := [], env := renameEnv } := by rfl
+  have h1 : tupOk Manticore.SmbCodecs.std "SMB_FILE_ATTRIBUTES" ([0x16], []) = true := by decide +kernel
+  have h2 : tupOk Manticore.SmbCodecs.std "SMB_STRING" ([4, 1], [[0x41]]) = true := by decide +kernel
+  have h3 : tupOk Manticore.SmbCodecs.std "SMB_STRING" ([4, 2], [[0x42, 0x43]]) = true := by decide +kernel
+  unfold consistent
+  rw [hrun]
+  simp [intsFit, relationsHold, cmd_RenameRequest, renameEnv, Env.get, h1, h2, h3, wordCountOf, andxWords, andxOk]
 
 end Manticore.C04
